@@ -13,7 +13,10 @@ import os
 import sys
 import time
 
-import z3
+try:
+    import z3
+except Exception:  # concrete-only interpreter (/venv/bin/python)
+    z3 = None
 
 from . import values as V
 from .values import EngineError, SBool, SInt, SOpq, SSeq, Sym, is_sym
@@ -460,6 +463,9 @@ class Engine:
         self.path_id = self.paths
         self.loop_ctx = []  # active cut loops
         self.exc_stack = []
+        self.seq_facts = {}
+        self._inst_seen = set()
+        self._in_inst = 0
 
     # ---------------- fresh symbols -----------------
     def fresh_name(self, base):
@@ -689,6 +695,91 @@ class Engine:
         s.add(z3.Not(f.t))
         return s.check() == z3.unsat
 
+    # ---------------- quantified facts about sequence elements -----------------
+    def register_forall(self, fa):
+        over = fa.over
+        if isinstance(over, Ref):
+            over = self.heap[over.id]["items"]
+        if not isinstance(over, SSeq):
+            # concrete spine: instantiate at every position now
+            n = len(over)
+            for k in range(n):
+                f = fa.fn(k)
+                if f is not True:
+                    self.assume(f)
+            return
+        self.seq_facts.setdefault(over.t.get_id(), []).append((fa.fn, fa.trigger))
+
+    def on_nth(self, ss, i):
+        facts = self.seq_facts.get(ss.t.get_id())
+        if not facts or self._in_inst >= 3:
+            return
+        iid = i.t.get_id() if is_sym(i) else ("c", i)
+        self._in_inst += 1
+        try:
+            for n, (fn, trig) in enumerate(list(facts)):
+                key = (ss.t.get_id(), n, iid)
+                if not trig or key in self._inst_seen:
+                    continue
+                self._inst_seen.add(key)
+                f = fn(i)
+                if isinstance(f, SBool):
+                    self.pc.append(f.t)
+                elif f is False:
+                    raise PathEnd()
+        finally:
+            self._in_inst -= 1
+
+    def instantiate_all(self, k):
+        """instantiate every recorded quantified fact at index term k (goal-directed instantiation)"""
+        kid = k.t.get_id() if is_sym(k) else ("c", k)
+        self._in_inst += 1
+        try:
+            for sid, facts in list(self.seq_facts.items()):
+                for n, (fn, trig) in enumerate(list(facts)):
+                    key = (sid, n, kid)
+                    if key in self._inst_seen:
+                        continue
+                    self._inst_seen.add(key)
+                    f = fn(k)
+                    if isinstance(f, SBool):
+                        self.pc.append(f.t)
+        finally:
+            self._in_inst -= 1
+
+    def assume_item(self, f):
+        from .contract import ForAll
+
+        if isinstance(f, ForAll):
+            self.register_forall(f)
+        else:
+            self.assume(f)
+
+    def prove_item(self, kind, label, f, props=None, assume_after=True):
+        from .contract import ForAll
+
+        if isinstance(f, ForAll):
+            if f.mod:
+                for r in range(f.mod):
+                    q = self.fresh_int("kq@%s" % label)
+                    k = q * f.mod + r
+                    mark = len(self.pc)
+                    self.instantiate_all(k)
+                    goal = f.fn(k)
+                    self.oblig(kind, "%s[k%%%d=%d]" % (label, f.mod, r), goal, props=props, assume_after=False)
+                    del self.pc[mark:]
+            else:
+                k = self.fresh_int("k@" + label)
+                mark = len(self.pc)
+                self.instantiate_all(k)
+                goal = f.fn(k)
+                self.oblig(kind, label, goal, props=props, assume_after=False)
+                del self.pc[mark:]
+            if assume_after:
+                self.register_forall(f)
+        else:
+            self.oblig(kind, label, f, props=props, assume_after=assume_after)
+
     # ---------------- safety -----------------
     def allows(self, exc_cls):
         c = self.frames[0].contract if self.frames else self.contract
@@ -771,7 +862,7 @@ class Engine:
             bound = c.setup(self.ctx)
             c._bound = bound
             for label, f in c.eval_requires(self.ctx, bound):
-                self.assume(f)
+                self.assume_item(f)
             if not self.feasible():
                 self.cover.setdefault("requires", False)
                 raise PathEnd()
@@ -793,7 +884,7 @@ class Engine:
         if outcome[0] == "return":
             self.cover["normal-exit"] = True
             for kind, label, f, props in c.eval_ensures(ctx, old, bound, outcome[1]):
-                self.oblig(kind, label, f, props=props, assume_after=False)
+                self.prove_item(kind, label, f, props=props, assume_after=False)
         else:
             e = outcome[1]
             spec = c.raise_spec(e.cls)
@@ -938,7 +1029,7 @@ class Engine:
         bound = ct.bind(ctx, args, kwargs)
         tgt = ct.target
         for label, f in ct.eval_requires(ctx, bound):
-            self.oblig("pre@callsite", "%s.%s@%s" % (tgt.split(":")[1], label, self._anchor(node)), f)
+            self.prove_item("pre@callsite", "%s.%s@%s" % (tgt.split(":")[1], label, self._anchor(node)), f)
         old = ctx.snapshot()
         octx = ctx.with_old(old)
         # exceptional outcomes of the callee
@@ -971,7 +1062,7 @@ class Engine:
                 if w is not None:
                     self.assume(V.Not(w) if not isinstance(w, bool) else (not w))
         for kind, label, f, props in ct.eval_ensures(octx, old, bound, result):
-            self.assume(f)
+            self.assume_item(f)
         self.event("contract-call", tgt, None, args, kwargs, node, result)
         return result
 
@@ -1398,7 +1489,7 @@ class Engine:
         for f in spec.unfold_init(ctx, L):
             self.assume(f)
         for label, f in spec.eval_inv(ctx, L):
-            self.oblig("inv.init", "%s.%s" % (spec.name, label), f)
+            self.prove_item("inv.init", "%s.%s" % (spec.name, label), f, assume_after=False)
         # havoc
         names = self._assigned_names(st.body) | (self._assigned_names([st.target]) if kind == "for" else set())
         hv = self.loop_havoc.setdefault(key, set())
@@ -1427,7 +1518,14 @@ class Engine:
                 d = dict(self.heap[oid])
                 if isinstance(cur, Ref):
                     raise EngineError("loop %s re-binds reference field %s" % (key, field))
-                d[field] = self.fresh_like(cur, "%s.%s@%s" % (self.heap[oid].get("label", "o%d" % oid), field, spec.name))
+                nm = None
+                for ln, lv in env.items():
+                    if isinstance(lv, Ref) and lv.id == oid:
+                        nm = ln
+                if nm is not None and nm in spec.cells and field == "items":
+                    d[field] = self.fresh_seq("%s@%s" % (nm, spec.name), spec.cells[nm], "list" if self.heap[oid]["kind"] == "list" else "bytearray")
+                else:
+                    d[field] = self.fresh_like(cur, "%s.%s@%s" % (self.heap[oid].get("label", "o%d" % oid), field, spec.name))
                 self.heap[oid] = d
         self.stats["havocs"].append((key, sorted(names), sorted(str(x) for x in hv)))
         if kind == "for":
@@ -1435,7 +1533,7 @@ class Engine:
             self.assume(L.i >= 0)
             self.assume(L.i <= L.n)
         for label, f in spec.eval_inv(ctx, L):
-            self.assume(f)
+            self.assume_item(f)
         choice = self.decide([None, None])  # 0: one more iteration, 1: exit
         if choice == 0:
             lc = {"key": key, "first_new_id": first_new, "havoc_set": hv}
@@ -1445,6 +1543,21 @@ class Engine:
             else:
                 if not self.branch(self.eval_cond(st.test)):
                     raise PathEnd()
+            for nm, fn in spec.case_split:
+                if nm == "@index_mod":
+                    # prove the step separately for each residue r of the loop index modulo m: i := m*q + r
+                    m = fn
+                    r = self.concretize_int(L.i % m, "case split of " + key, limit=64)
+                    q = self.fresh_int("q@" + spec.name)
+                    self.assume(q >= 0)
+                    self.assume(L.i == q * m + r)
+                    L.i = q * m + r
+                    if kind == "for":
+                        self.assign(st.target, L.element(L.i))
+                    continue
+                val = self.concretize_int(fn(ctx, L), "case split of " + key, limit=64)
+                if nm is not None:
+                    env[nm] = val
             var0 = spec.eval_variant(ctx, L)
             for f in spec.unfold_step(ctx, L):
                 self.assume(f)
@@ -1465,7 +1578,7 @@ class Engine:
             if kind == "for":
                 L.i = L.i + 1
             for label, f in spec.eval_inv(ctx, L):
-                self.oblig("inv.keep", "%s.%s" % (spec.name, label), f, assume_after=False)
+                self.prove_item("inv.keep", "%s.%s" % (spec.name, label), f, assume_after=False)
             if var0 is not None:
                 var1 = spec.eval_variant(ctx, L)
                 self.oblig("variant", "%s.decreases" % spec.name, V.And(var0 >= 0, var1 < var0), assume_after=False)
@@ -1809,6 +1922,7 @@ class LoopCtx:
         self.n = None
         self.seq = None
         self._elem = None
+        self.ghost = {}
 
     def prepare_iterable(self):
         eng = self.eng
